@@ -152,8 +152,8 @@ def cfg_key(ep, cfg):
 
 
 REGRESSION = [
-    ("vario_estimate", [0, 0, 1, 0, 0, 0, 1, 1, 0, 0, 0, 0]),      # bin_edges /= geo_scale
-    ("vario_estimate", [0, 0, 1, 0, 0, 0, 1, 0, 0, 0, 0, 0]),
+    ("vario_estimate", [0, 0, 1, 0, 0, 0, 1, 1, 0, 0, 0, 0, 0]),   # bin_edges /= geo_scale
+    ("vario_estimate", [0, 0, 1, 0, 0, 0, 1, 0, 0, 0, 0, 0, 2]),
     ("vario_estimate_axis", [0, 2, 1, 0, 0]),                      # caller mask
     ("vario_estimate_axis", [0, 2, 1, 1, 1]),
     ("field_call", [0, 1, 1, 0, 1, 0, 0]),                          # Field.__call__(field=arr) with mean
@@ -163,9 +163,13 @@ REGRESSION = [
     ("apply_mean_norm_trend", [0, 0, 0, 1, 0, 0]),
     ("remove_trend_norm_mean", [0, 0, 1, 0, 1, 0]),
     ("remove_trend_norm_mean", [0, 0, 0, 1, 1, 1]),
-    ("transform", [5, 1, 1, 1, 1]),                                 # lognormal, process, store="b", trend
-    ("transform", [0, 1, 2, 0, 1]),
-    ("transform", [3, 1, 0, 1, 0]),
+    ("transform", [5, 1, 1, 1, 1, 0, 0]),                           # lognormal, process, store="b", trend
+    ("transform", [0, 1, 2, 0, 1, 1, 1]),
+    ("transform", [3, 1, 0, 1, 0, 2, 2]),
+    ("transform", [2, 0, 1, 1, 0, 1, 0]),                           # boxcox with shift != 0 (seeded change, round 2)
+    ("transform", [2, 0, 1, 1, 0, 2, 2]),
+    ("array_fn", [1, 0, 1]),
+    ("array_fn", [1, 0, 2]),
 ]
 
 
@@ -318,45 +322,47 @@ def replay(ctx, path):
 
 ENTRY_NAMES = ["vario_estimate", "vario_estimate_axis", "standard_bins", "field_call", "post_field",
                "apply_mean_norm_trend", "remove_trend_norm_mean", "transform", "srf_call", "krige_condition",
-               "krige_call", "condsrf_call", "fit_variogram", "normalizer", "generator"]
+               "krige_call", "condsrf_call", "fit_variogram", "normalizer", "generator", "array_fn"]
 DIMS = {
-    "vario_estimate": [2, 3, 3, 2, 3, 2, 2, 2, 2, 2, 2, 2],
+    "vario_estimate": [2, 3, 3, 2, 3, 2, 2, 2, 2, 2, 2, 2, 3],
     "vario_estimate_axis": [2, 3, 2, 2, 2],
-    "standard_bins": [3, 2, 2, 2, 2],
+    "standard_bins": [3, 2, 2, 2, 4],
     "field_call": [3, 4, 2, 3, 2, 2, 3],
     "post_field": [3, 2, 3, 2],
     "apply_mean_norm_trend": [2, 3, 2, 2, 2, 2],
     "remove_trend_norm_mean": [2, 3, 2, 2, 2, 2],
-    "transform": [10, 2, 3, 2, 2],
-    "srf_call": [3, 3, 2, 2, 3, 2, 3, 3],
+    "transform": [10, 2, 3, 2, 2, 3, 3],
+    "srf_call": [3, 3, 2, 2, 3, 2, 4, 3],
     "krige_condition": [3, 3, 3, 4, 2, 2, 2],
     "krige_call": [3, 2, 4, 2, 2, 2, 3, 2, 2, 3],
     "condsrf_call": [3, 2, 2, 3, 2, 2, 2, 3],
     "fit_variogram": [3, 3, 4, 2, 2, 2],
-    "normalizer": [7, 6, 2, 2, 2],
-    "generator": [3, 2, 2],
+    "normalizer": [7, 6, 2, 2, 2, 3],
+    "generator": [3, 2, 2, 2],
+    "array_fn": [8, 2, 3],
 }
 DIGIT_NAMES = {
     "vario_estimate": ["pos", "field", "bin_edges", "mask", "direction", "angles", "latlon", "geo_scale!=1", "mean+trend+normalizer",
-                       "no_data", "sampling", "structured"],
+                       "no_data", "sampling", "structured", "numeric_options"],
     "vario_estimate_axis": ["data", "kind", "missing", "no_data", "axis"],
     "standard_bins": ["pos", "latlon", "geo_scale!=1", "structured", "bin_no+max_dist"],
     "field_call": ["pos", "field", "post_process", "store", "mean+trend+normalizer", "structured", "history"],
     "post_field": ["field", "process", "save", "mean+trend+normalizer"],
     "apply_mean_norm_trend": ["pos", "field", "check_shape", "stacked", "mean+trend+normalizer", "structured"],
     "remove_trend_norm_mean": ["pos", "field", "check_shape", "stacked", "mean+trend+normalizer", "structured"],
-    "transform": ["method", "process", "store", "keep_mean", "trend+normalizer"],
+    "transform": ["method", "process", "store", "keep_mean", "trend+normalizer", "numeric_args", "source"],
     "srf_call": ["generator", "pos", "structured", "post_process", "store", "mean+trend+normalizer", "point_volumes", "history"],
     "krige_condition": ["cond_pos", "cond_val", "ext_drift", "cond_err", "fit_variogram", "mean+trend+normalizer", "set_condition"],
     "krige_call": ["pos", "structured", "ext_drift", "only_mean", "return_var", "post_process", "store", "chunked",
                    "mean+trend+normalizer", "history"],
     "condsrf_call": ["pos", "structured", "post_process", "store", "krige_store", "mean+trend+normalizer", "nugget", "history"],
     "fit_variogram": ["x_data", "y_data", "weights", "directional", "latlon", "return_r2"],
-    "normalizer": ["class", "method", "data", "nan", "out_of_range"],
-    "generator": ["generator", "pos", "nugget"],
+    "normalizer": ["class", "method", "data", "nan", "out_of_range", "parameters"],
+    "generator": ["generator", "pos", "nugget", "options"],
+    "array_fn": ["function", "field", "numeric_args"],
 }
 QUICK_BUDGET = {"vario_estimate": 3000, "krige_call": 500, "srf_call": 300, "krige_condition": 200, "condsrf_call": 200,
-                "field_call": 300, "fit_variogram": 60, "normalizer": 120}
+                "field_call": 300, "fit_variogram": 60, "normalizer": 250, "transform": 500}
 N_VARIANTS = 3
 CFG_COUNT = {k: int(np.prod(v)) for k, v in DIMS.items()}
 
@@ -384,6 +390,8 @@ def describe(name, cfg):
 def nontrivial(name, cfg):
     d = describe(name, cfg)
     alias_digits = [k for k in d if k in ("pos", "field", "bin_edges", "data", "cond_pos", "cond_val", "x_data", "y_data")]
+    if name == "array_fn":
+        return d["field"] == 0
     if name in ("transform", "post_field", "condsrf_call", "krige_call"):
         return True
     if d.get("history", 0):
@@ -539,7 +547,7 @@ def the_model(nugget=0.0, latlon=False):
 # ---- vario_estimate
 def real_vario_estimate(cfg, rng, variant):
     import gstools as gs
-    posd, kind, be, mask, dr, ang, latlon, geo, mtn, nodata, sampling, structured = cfg
+    posd, kind, be, mask, dr, ang, latlon, geo, mtn, nodata, sampling, structured, nopt = cfg
     w = World("vario_estimate", 7)
     pv, fshape = base_values(rng, structured, latlon)
     pos, held = mk_pos(pv, 0 if posd == 0 else 2, variant, structured) if structured else \
@@ -580,9 +588,23 @@ def real_vario_estimate(cfg, rng, variant):
     if nodata:
         kw["no_data"] = -999.0
     if sampling:
-        kw.update(sampling_size=4, sampling_seed=3)
+        kw.update(sampling_size=[4, 3, 5][nopt], sampling_seed=3 + nopt)
     kw.update(mtn_kwargs(mtn))
-    kw.update(latlon=bool(latlon), geo_scale=(gs.KM_SCALE if geo else gs.RADIAN_SCALE),
+    scale = gs.KM_SCALE if geo else gs.RADIAN_SCALE
+    if nopt == 1:       # non-default numeric options
+        kw.update(estimator="cressie", bandwidth=2.0, angles_tol=0.3)
+        if not be:
+            kw.update(bin_no=4, max_dist=(3000.0 if geo else 0.6) if latlon else 5.0)
+    elif nopt == 2:
+        kw.update(bandwidth=0.5, angles_tol=1.0)
+        if not be:
+            kw.update(bin_no=3)
+        if geo and latlon and be:
+            scale = gs.DEGREE_SCALE
+            kw["bin_edges"] = None
+            bev = np.linspace(0.0, 60.0, 4); kw["bin_edges"] = bev if be == 1 else bev.tolist()
+            w.arg(3, "bin_edges", [bev] if be == 1 else [])
+    kw.update(latlon=bool(latlon), geo_scale=scale,
               mesh_type="structured" if structured else "unstructured", return_counts=True)
     w.nret = 3
     w.call = lambda: list(gs.vario_estimate(pos, field, **kw))
@@ -621,7 +643,7 @@ def real_standard_bins(cfg, rng, variant):
     pv, _ = base_values(rng, structured, latlon)
     pos, held = mk_pos(pv, lay, variant, structured)
     w.arg(0, "pos", held)
-    kw = dict(bin_no=5, max_dist=3.0) if given else {}
+    kw = [{}, dict(bin_no=5), dict(max_dist=3.0), dict(bin_no=5, max_dist=3.0)][given]
     w.nret = 1
     w.call = lambda: [gs.standard_bins(pos, dim=2, latlon=bool(latlon), mesh_type="structured" if structured else "unstructured",
                                        geo_scale=(gs.KM_SCALE if geo else gs.RADIAN_SCALE), **kw)]
@@ -716,35 +738,115 @@ METHODS = ["binary", "discrete", "boxcox", "zinnharvey", "normal_force_moments",
            "normal_to_uniform", "normal_to_arcsin", "normal_to_uquad", "apply_function"]
 
 
+def transform_args(method, opt, w=None, direct=False):
+    """numeric / option arguments of a transform: opt 0 defaults, 1 and 2 non-default sets.
+    array arguments given by the caller are registered as cells of w"""
+    base = 1 if direct else 0        # argument index of values / thresholds
+    if method == 0:      # binary
+        return [{}, dict(divide=0.8, upper=2.5, lower=-1.5), dict(upper=3.0)][opt]
+    if method == 1:      # discrete
+        if opt == 0:
+            return dict(values=[1.0, 2.0, 3.0])
+        vals = np.array([1.0, 2.0, 4.0])
+        if w is not None:
+            w.arg(base, "values", [vals])
+        if opt == 1:
+            thr = np.array([0.7, 1.4])
+            if w is not None:
+                w.arg(base + 1, "thresholds", [thr])
+            return dict(values=vals, thresholds=thr)
+        return dict(values=vals, thresholds="equal")
+    if method == 2:      # boxcox
+        return [dict(lmbda=0.5), dict(lmbda=0.5, shift=1.5), dict(lmbda=0, shift=2.0)][opt]
+    if method == 3:      # zinnharvey
+        return [{}, dict(conn="low"), dict(conn="high")][opt]
+    if method == 6:      # uniform
+        return [{}, dict(low=2.0, high=5.0), dict(low=-1.0)][opt]
+    if method in (7, 8):  # arcsin, uquad
+        return [{}, dict(a=1.0, b=3.0), dict(a=-2.0)][opt]
+    if method == 9:      # user function
+        return [dict(function=lambda x: 2.0 * x + 1.0), dict(function=lambda x, k, s: k * x + s, k=3.0, s=1.5),
+                dict(function=np.exp)][opt]
+    return {}
+
+
 # ---- Field.transform and the transform wrappers
 def real_transform(cfg, rng, variant):
     import gstools as gs
-    method, process, store, keep_mean, mtn = cfg
-    w = World("transform", 0)
+    method, process, store, keep_mean, mtn, opt, src = cfg
+    w = World("transform", 2)
     kw = dict(mean=1.0)
     if mtn:
         kw.update(trend=(lambda *x: 0.01 * x[0]), normalizer=gs.normalizer.LogNormal())
-    obj = gs.SRF(the_model(), seed=int(rng.integers(1 << 30)), **kw)
+    structured = variant == 2
+    pv, fshape = base_values(rng, structured)
+    mt = "structured" if structured else "unstructured"
+    caller_arr = []
+    if src == 0:
+        obj = gs.SRF(the_model(), seed=int(rng.integers(1 << 30)), mode_no=20, **kw)
+        obj(pv, mesh_type=mt)
+    elif src == 1:
+        cpv, cvv = cond_values(rng, 8)
+        obj = gs.krige.Krige(the_model(), cpv, cvv, **kw)
+        obj(pv, mesh_type=mt, return_var=False)
+    else:       # the stored field IS the caller's array (stored without post-processing)
+        obj = gs.field.Field(the_model(), **kw)
+        arr = rng.uniform(1.0, 2.0, fshape)
+        obj(pv, field=arr, mesh_type=mt, post_process=False)
+        caller_arr = [arr]
     w.obj = obj
-    pv, _ = base_values(rng, variant == 2)
-    obj(pv, mesh_type="structured" if variant == 2 else "unstructured")
     p = obj.pos
-    w.pre(A_POS, list(p) if isinstance(p, tuple) else [p]); w.pre(A_FIELD, [obj.field])
-    extra = {}
-    if method == 1:
-        extra = dict(values=[1.0, 2.0, 3.0])
-    elif method == 2:
-        extra = dict(lmbda=0.5)
-    elif method == 9:
-        extra = dict(function=lambda x: 2.0 * x + 1.0)
+    w.pre(A_POS, list(p) if isinstance(p, tuple) else [p])
+    w.pre(A_FIELD, [obj.field] + caller_arr, label="field" + (" (= caller's array)" if caller_arr else ""))
+    extra = transform_args(method, opt, w)
     st = {0: True, 1: "b", 2: False}[store]
     name = METHODS[method]
     w.nret = 1
     if variant == 1:     # module-level wrapper functions
         fn = getattr(gs.transform, name)
         w.call = lambda: [fn(obj, store=st, process=bool(process), keep_mean=bool(keep_mean), **extra)]
-    else:                # Field.transform / transform.apply
+    elif variant == 2:   # transform.apply
+        w.call = lambda: [gs.transform.apply(obj, name, store=st, process=bool(process), keep_mean=bool(keep_mean), **extra)]
+    else:                # Field.transform
         w.call = lambda: [obj.transform(name, store=st, process=bool(process), keep_mean=bool(keep_mean), **extra)]
+    return w
+
+
+ARRAY_FNS = ["array_discrete", "array_boxcox", "array_zinnharvey", "array_force_moments", "array_to_lognormal",
+             "array_to_uniform", "array_to_arcsin", "array_to_uquad"]
+
+
+# ---- gstools.transform.array_* called directly on a caller array
+def real_array_fn(cfg, rng, variant):
+    import gstools as gs
+    fn, dd, opt = cfg
+    w = World("array_fn", 3)
+    vals = rng.normal(size=(9,) if variant != 2 else (3, 4))
+    if dd == 0:
+        data, h = mk_lay(vals, 0, variant % 2, reshape=False)
+    else:
+        data, h = mk_lay(vals, 2, variant % 2, reshape=False)
+    w.arg(0, "field", h)
+    mv = [{}, dict(mean=0.3, var=2.0), dict(mean=-1.0)][opt]
+    if fn == 0:
+        kw = transform_args(1, opt, w, direct=True)
+        if opt == 2:
+            kw.update(mean=0.2, var=1.5)
+    elif fn == 1:
+        kw = transform_args(2, opt)
+    elif fn == 2:
+        kw = dict(transform_args(3, opt), **mv)
+    elif fn == 3:
+        kw = [{}, dict(mean=2.0, var=3.0), dict(var=0.5)][opt]
+    elif fn == 4:
+        kw = {}
+    elif fn == 5:
+        kw = dict(transform_args(6, opt), **mv)
+    else:
+        kw = dict(transform_args(7, opt), **mv)
+    f = getattr(gs.transform, ARRAY_FNS[fn])
+    w.nret = 1
+    w.call = lambda: [f(data, **kw)]
     return w
 
 
@@ -770,7 +872,9 @@ def real_srf_call(cfg, rng, variant):
     kw = {}
     if pvd:
         vol = rng.uniform(0.5, 1.5, fshape)
-        if pvd == 1:
+        if pvd == 3:
+            kw["point_volumes"] = 1.7
+        elif pvd == 1:
             kw["point_volumes"] = vol; w.arg(1, "point_volumes", [vol])
         else:
             kw["point_volumes"] = vol.astype(np.float32); w.arg(1, "point_volumes", [kw["point_volumes"]])
@@ -805,11 +909,17 @@ def real_krige_condition(cfg, rng, variant):
         ce, h = mk_lay(rng.uniform(0.05, 0.2, n), 0 if err == 2 else 2, variant if err == 2 else 0)
         kw["cond_err"] = ce; w.arg(3, "cond_err", h)
     kw["fit_variogram"] = bool(fitv)
+    ckw = {}            # constructor-only numeric / flag options, varied with the realisation
+    if variant == 1:
+        ckw = dict(pseudo_inv_type="pinvh", exact=(err == 0))
+    elif variant == 2:
+        ckw = dict(unbiased=False, pseudo_inv=False)
     holder = {}
     w.nret = 0
     if recond:
         cp0, cv0 = cond_values(rng, n)
-        k0 = gs.krige.Krige(the_model(), cp0, cv0, ext_drift=(rng.normal(size=n) if ext else None), **mtn_kwargs(mtn))
+        k0 = gs.krige.Krige(the_model(nugget=0.1 * variant), cp0, cv0, ext_drift=(rng.normal(size=n) if ext else None),
+                            **ckw, **mtn_kwargs(mtn))
         w.obj = k0
         for a in (A_CPOS, A_CVAL, A_CEXT, A_KPOS, A_KMAT):
             w.pre(a, [getattr(k0, ATTR_NAME[a])])
@@ -827,7 +937,7 @@ def real_krige_condition(cfg, rng, variant):
         w.obj = Late()
 
         def call():
-            holder["k"] = gs.krige.Krige(the_model(), cp, cv, **kw, **mtn_kwargs(mtn))
+            holder["k"] = gs.krige.Krige(the_model(nugget=0.1 * variant), cp, cv, **kw, **ckw, **mtn_kwargs(mtn))
             return []
         w.call = call
     return w
@@ -843,7 +953,9 @@ def real_krige_call(cfg, rng, variant):
     w = World("krige_call", 2)
     n = 8
     cpv, cvv = cond_values(rng, n)
-    k = gs.krige.Krige(the_model(), cpv, cvv, ext_drift=(rng.normal(size=n) if ext else None), **mtn_kwargs(mtn))
+    ckw = [{}, dict(exact=True, pseudo_inv_type="pinvh"), dict(unbiased=False, cond_err=rng.uniform(0.05, 0.2, n))][variant]
+    k = gs.krige.Krige(the_model(nugget=0.1 * variant), cpv, cvv, ext_drift=(rng.normal(size=n) if ext else None),
+                       **ckw, **mtn_kwargs(mtn))
     w.obj = k
     mt = "structured" if structured else "unstructured"
     for a in (A_CPOS, A_CVAL, A_CEXT, A_KPOS, A_KMAT):
@@ -861,7 +973,7 @@ def real_krige_call(cfg, rng, variant):
             e = e.reshape(-1); h = [e]
         kw["ext_drift"] = e; w.arg(1, "ext_drift", h)
     if chunk:
-        kw["chunk_size"] = 4
+        kw["chunk_size"] = [4, 1, 5][variant]
     two = bool(rv) and not only_mean
     w.nret = 2 if two else 1
 
@@ -938,6 +1050,12 @@ def real_fit_variogram(cfg, rng, variant):
         kw["weights"] = wv; w.arg(2, "weights", [wv])
     w.nret = 1
 
+    if variant == 1:
+        kw.update(init_guess={"default": "current", "len_scale": float(xv[2])}, sill=1.3, loss="linear")
+    elif variant == 2:
+        kw.update(method="dogbox", max_eval=200, nugget=False, init_guess="current")
+        model.set_arg_bounds(len_scale=[float(xv[0]) / 10, float(xv[-1]) * 10])
+
     def call():
         r = model.fit_variogram(x, y, return_r2=bool(r2), **kw)
         return [r[1]]
@@ -952,9 +1070,14 @@ NORM_METHODS = ["normalize", "denormalize", "derivative", "fit", "loglikelihood"
 # ---- Normalizer.*
 def real_normalizer(cfg, rng, variant):
     import gstools as gs
-    cls, meth, dd, nan, oor = cfg
+    cls, meth, dd, nan, oor, par = cfg
     w = World("normalizer", 1)
-    nrm = getattr(gs.normalizer, NORM_CLASSES[cls])()
+    pk = {}
+    if par and cls >= 2:       # non-default parameters: the lmbda = 0 / lmbda = 2 branches, shifts
+        pk = {2: [dict(lmbda=0.0), dict(lmbda=-0.7)], 3: [dict(lmbda=0.0, shift=1.5), dict(lmbda=2.0, shift=6.0)],
+              4: [dict(lmbda=0.0), dict(lmbda=2.0)], 5: [dict(lmbda=0.0), dict(lmbda=0.4)],
+              6: [dict(lmbda=0.0), dict(lmbda=-0.5)]}[cls][par - 1]
+    nrm = getattr(gs.normalizer, NORM_CLASSES[cls])(**pk)
     vals = rng.uniform(1.0, 2.0, 8 if variant != 2 else (2, 4))
     if nan:
         vals.flat[1] = np.nan
@@ -975,14 +1098,14 @@ def real_normalizer(cfg, rng, variant):
 # ---- generators
 def real_generator(cfg, rng, variant):
     from gstools.field import generator as G
-    gen, pd, nug = cfg
+    gen, pd, nug, gopt = cfg
     w = World("generator", 3)
     model = the_model(nugget=0.3 if nug else 0.0)
     pv, _ = base_values(rng, False)
     pos, h = mk_lay(pv, 0 if pd == 0 else 2, variant, reshape=False)
     w.arg(0, "pos", h)
     holder = {}
-    per = np.array([20.0, 25.0]); mno = np.array([8, 6])
+    per = np.array([20.0, 25.0]) if not gopt else np.array([13.0]); mno = np.array([8, 6]) if not gopt else np.array([4, 10])
     if gen == 2:
         w.arg(1, "period", [per]); w.arg(2, "mode_no", [mno])
 
@@ -997,13 +1120,13 @@ def real_generator(cfg, rng, variant):
 
     def call():
         if gen == 0:
-            g = G.RandMeth(model, mode_no=20, seed=5)
+            g = G.RandMeth(model, mode_no=20, seed=5, **(dict(sampling="inversion", verbose=False) if gopt else {}))
         elif gen == 1:
-            g = G.IncomprRandMeth(model, mode_no=20, seed=5)
+            g = G.IncomprRandMeth(model, mode_no=20, seed=5, **(dict(mean_velocity=2.5) if gopt else {}))
         else:
             g = G.Fourier(model, period=per, mode_no=mno, seed=5)
         holder["g"] = g
-        return [g(pos)]
+        return [g(pos, add_nugget=not (gopt and variant == 1))]
     w.call = call
     return w
 
@@ -1015,7 +1138,7 @@ REALISERS = {
     "remove_trend_norm_mean": real_mnt_tool("remove_trend_norm_mean"),
     "transform": real_transform, "srf_call": real_srf_call, "krige_condition": real_krige_condition,
     "krige_call": real_krige_call, "condsrf_call": real_condsrf_call, "fit_variogram": real_fit_variogram,
-    "normalizer": real_normalizer, "generator": real_generator,
+    "normalizer": real_normalizer, "generator": real_generator, "array_fn": real_array_fn,
 }
 
 
